@@ -363,6 +363,67 @@ def fileio_phase():
     return total, bad
 
 
+def run_sections(nops, hist):
+    """replay one behaviour of spec/Sections.tla: independent with_memory_store sections, each
+    subscribed / fed / disposed / subscribed again as the history says"""
+    import rx
+    import rxsci as rs
+    from rx.subject import Subject
+    subj = [Subject() for _ in nops]
+    obs = [subj[j].pipe(rs.state.with_memory_store(pipeline=rx.pipe(
+        *[rs.ops.scan(lambda acc, i: acc + 1, seed=0) for _ in range(k)]))) for j, k in enumerate(nops)]
+    outs = [[] for _ in nops]
+    disp = [None for _ in nops]
+    try:
+        for (what, s) in hist:
+            j = s - 1
+            if what == 'sub':
+                disp[j] = obs[j].subscribe(on_next=outs[j].append, on_error=lambda e, j=j: outs[j].append('error'))
+            elif what == 'item':
+                subj[j].on_next(0)
+            else:
+                disp[j].dispose()
+    except Exception as e:
+        return 'raised:' + type(e).__name__
+    return outs
+
+
+def sections_phase():
+    """spec/Sections.tla: several store sections, re-subscription; the two deviations must be refuted"""
+    table = [[1, 1], [1, 2], [2, 1], [2, 1, 1]]
+    jobs = []
+    for cid in (1, 2, 3, 4):
+        jobs.append((cid, 'none', 6 if cid == 4 else 7))
+    for dev in ('shared-manager', 'topology-per-application'):
+        jobs.append((2, dev, 6))
+    rs_ = C.par([lambda cid=cid, dev=dev, n=n: C.run_tlc(
+        'Sections', C.cfg(constants=dict(CfgId=cid, Deviation=dev, MaxSteps=n),
+                          invariants=['NoIndexError', 'Independent'] + (['EmitBehaviour'] if dev == 'none' else [])),
+        workers=2) for (cid, dev, n) in jobs])
+    bad = total = 0
+    for (cid, dev, n), r in zip(jobs, rs_):
+        if dev != 'none':
+            if not r.violated:
+                print('Sections: deviation %s is not refuted' % dev)
+                return None, None
+            print('sections: deviation %s refuted (%s)' % (dev, r.violated))
+            continue
+        if r.violated:
+            print('Sections model violates %s for cfg %d' % (r.violated, cid))
+            return None, None
+        behs = C.extract_printed(r.stdout, 'BEH')
+        for (_, hist, mout) in behs:
+            total += 1
+            real = run_sections(table[cid - 1], [(h[0], h[1]) for h in hist])
+            model = [list(o) for o in mout]
+            if real != model:
+                bad += 1
+                if bad <= 5:
+                    print('EXTRA-MISMATCH sections cfg=%d hist=%s model=%s real=%s' % (cid, hist, model, real))
+        print('sections cfg %d %s: %d states, %d behaviours replayed' % (cid, table[cid - 1], r.distinct, len(behs)))
+    return total, bad
+
+
 def run_topology(order, ops):
     """replay one subscription order of spec/Topology.tla on the real with_store: every
     operator of the model is a harness operator that answers the topology probe with
@@ -498,6 +559,11 @@ def main():
         return 2
     total += t5
     bad += b5
+    t7, b7 = sections_phase()
+    if t7 is None:
+        return 2
+    total += t7
+    bad += b7
     t6, b6 = fileio_phase()
     if t6 is None:
         return 2
